@@ -18,7 +18,7 @@ Template directives all start with `//@`.  Everything else in the template is co
   //@   spec / endspec                                (requires/ensures/decreases lines)
   //@   inner NAME / endinner                         (ret/attr/spec for a nested fn)
   //@   loop N [binder it] / endloop                  (invariant/ensures/decreases of N-th loop)
-  //@   ghost entry | before-loop N | loop-body N | after-loop N | before [K] | after [K]
+  //@   ghost entry | before-loop N | loop-body N | loop-end N | after-loop N | before [K] | after [K]
   //@   //@| exact text line(s) for before/after anchors
   //@   endghost
   //@   rewrite KIND [count=N] ; //@- old lines ; //@+ new lines ; //@ why ... ; endrewrite
@@ -797,7 +797,7 @@ def splice_fn(fd, files, asm, canary=False, record=True):
         # expected header of its loops and they do not line up (a loop was removed or added): then the
         # longest common subsequence of headers decides, and contracts of loops that are gone are skipped
         loop_map = {}
-        tmpl_n = sorted(set(list(fd.loops.keys()) + [a for (w, a, _, _) in fd.ghosts if w in ('before-loop', 'loop-body', 'after-loop') and a is not None]))
+        tmpl_n = sorted(set(list(fd.loops.keys()) + [a for (w, a, _, _) in fd.ghosts if w in ('before-loop', 'loop-body', 'loop-end', 'after-loop') and a is not None]))
         heads_here = [' '.join(text[p:header_brace(mask, p)].split()) for (p, kw) in loops]
         lined_up = all((nn <= len(loops)) and (nn not in fd.loop_heads or heads_here[nn - 1] == fd.loop_heads[nn]) for nn in tmpl_n)
         if lined_up and (not fd.loop_heads or len(loops) == max(fd.loop_heads)):
@@ -848,7 +848,7 @@ def splice_fn(fd, files, asm, canary=False, record=True):
             payload = labelled(body, fd.props, item, kind, asm)
             if where == 'entry':
                 ins(top_br + 1, ('BLOCK', payload), inline=True)
-            elif where in ('before-loop', 'loop-body', 'after-loop'):
+            elif where in ('before-loop', 'loop-body', 'loop-end', 'after-loop'):
                 if arg is None:
                     raise LostAnchor("%s: ghost anchor without loop number" % item)
                 if arg not in loop_map:
@@ -861,6 +861,13 @@ def splice_fn(fd, files, asm, canary=False, record=True):
                     ins(ls, ('LINES', payload), inline=True)
                 elif where == 'loop-body':
                     ins(hb + 1, ('BLOCK', payload), inline=True)
+                elif where == 'loop-end':
+                    # in front of the line that holds the closing brace of the loop body
+                    ce = match_close(mask, hb)
+                    ls = text.rfind('\n', 0, ce) + 1
+                    if text[ls:ce].strip() not in ('', '}'):
+                        raise LostAnchor("%s: the closing brace of loop %d is not on a line of its own" % (item, arg))
+                    ins(ls, ('LINES', payload), inline=True)
                 else:
                     ce = match_close(mask, hb)
                     le = text.find('\n', ce)
